@@ -25,6 +25,10 @@ case kinds
               transport's send lock, possibly a second sender queued behind it, when another task calls aclose(); the peer waits
               for our close_notify — vlib/c09_race.run_sendrace.  No model run (oracle only).
 
+  listen      server side THROUGH THE LISTENER: the real AsyncTLSListener over an in-memory listener; the client's stream is cut
+              at every offset of its handshake flights (and after), or the handshake stalls / is corrupted / the server shuts
+              down meanwhile; the handler given to serve() is the reader — vlib/c09_listen.  No model run (oracle only).
+
 real lines (cut)   hs ok|exc:<Class> ; r data <n> | r eof | r exc:<Class> | r late-data <n> (first terminal result, then two more calls) ;
                    plain <hex> ; close … ; inner-closed <0|1> ; peer … ; marks …
 model              the recorded answers of the SSL object / wrapped transport (async, proxy) or the script are replayed to
@@ -94,13 +98,16 @@ RULE = (
     "transport read with 0..k-1 of them read, a complete record in the incoming BIO + part of the next, part of a decrypted record "
     "left inside the SSL object, PRNG fragmentation) x role x TLS version x mode x peer responsive / dropped / closed, async and "
     "blocking; aclose() while another task's send_all() is parked in the wrapped transport (1 or 2 senders, the backpressure ends "
-    "after 0..6 loop turns or never); scripted engines whose unwrap() writes the alert and then raises each SSL error class"
+    "after 0..6 loop turns or never); scripted engines whose unwrap() writes the alert and then raises each SSL error class; "
+    "listener cases (server side through the real AsyncTLSListener over an in-memory listener, oracle only): every offset of "
+    "the client's handshake flights (quick: of one TLS version, a structured third of the other), structured offsets after "
+    "the handshake, stalled / corrupted handshakes, server shut down during the handshake, 2-4 connections on one listener"
 )
 
 _aux: dict[str, Any] = {}
 _cache: dict[str, tuple[list[str], dict]] = {}
 _stats: dict[str, Any] = {"laws": [], "trace_problems": [], "ignore_eof": {}, "classes": {}, "lens_mismatch": 0, "outside_alphabet": 0,
-                          "race": {}, "race_first": {}, "unread": {}, "sendrace": {}}
+                          "race": {}, "race_first": {}, "unread": {}, "sendrace": {}, "listen": {}}
 
 
 def translate() -> None:
@@ -134,6 +141,9 @@ def _run_once(case: dict) -> tuple[list[str], dict]:
     if k == "closesend":
         from vlib import c09_race as x9
         return x9.run_sendrace(case)
+    if k == "listen":
+        from vlib import c09_listen as l9
+        return l9.run_listen(case)
     raise core.InfraError(f"unknown case kind {k}")
 
 
@@ -234,6 +244,76 @@ def oracle(case: dict, real: list[str]) -> str | None:
         return _oracle_race(case, real)
     if k == "closesend":
         return _oracle_sendrace(case, real)
+    if k == "listen":
+        return _oracle_listen(case, real)
+    return None
+
+
+def _listen_sub(case: dict, real: list[str], i: int) -> tuple[dict, list[str]]:
+    """connection i of a `listen` case as a `cut` case (reader = server, asynchronous transport) + its lines without the prefix"""
+    c = case["conns"][i]
+    p = f"c{i} "
+    sub = [ln[len(p):] for ln in real if ln.startswith(p)]
+    sc = {"kind": "cut", "tr": "async", "role": "server", "tls": case["tls"], "recs": list(c.get("recs") or []),
+          "notify": bool(c.get("notify", True)), "cut": c.get("cut") if not c.get("fault") else None,
+          "sc": bool(case.get("sc", True)), "method": c.get("method", "recv")}
+    return sc, sub
+
+
+def _listen_class(case: dict, i: int) -> str:
+    c = case["conns"][i]
+    m = e9.baseline("server", case["tls"], list(c.get("recs") or []), bool(c.get("notify", True)))
+    if c.get("fault"):
+        return f"handshake/{c['fault']}"
+    return e9.classify(m, c.get("cut"))
+
+
+def _oracle_listen(case: dict, real: list[str]) -> str | None:
+    """Server side through AsyncTLSListener.  Per connection:
+      the client's stream ended (or the handshake failed otherwise) INSIDE THE HANDSHAKE: the failure is reported (handshake
+        error handler / log; nothing is demanded when the server itself was shut down meanwhile), NO connection handler is ever
+        started for that connection - hence no reader, and nothing is told "end-of-stream" -, the accepted transport is closed;
+      the handshake flight was delivered completely: the handler is started once, with the TLS transport, and its receive calls
+        obey the clauses of the `cut` cases (plaintext = complete records before the cut; no complete close_notify and
+        standard-compatible => three errors, never a clean end-of-stream; mode off => end-of-stream; complete => end-of-stream)."""
+    sc = bool(case.get("sc", True))
+    for i, c in enumerate(case["conns"]):
+        sub_case, sub = _listen_sub(case, real, i)
+        recs = sub_case["recs"]
+        m = e9.baseline("server", case["tls"], recs, sub_case["notify"])
+        cut, fault = c.get("cut"), c.get("fault")
+        cls = _listen_class(case, i)
+        where = (f"listener (server) TLS{case['tls']} connection {i} of {len(case['conns'])}: client stream "
+                 + (f"{fault} at offset {cut}" if fault else f"cut={cut}") + f" ({cls}) sc={sc} {c.get('method', 'recv')}")
+        hs = _field(sub, "hs")
+        if hs is None:
+            return f"{where}: no outcome observed"
+        handler = (_field(sub, "handler") or "0 -").split()
+        n_started, types = int(handler[0]), handler[1]
+        in_hs = bool(fault) or (cut is not None and cut < m["hs_end"])
+        if in_hs:
+            rs = [ln[2:] for ln in sub if ln.startswith("r ")]
+            if n_started or rs:
+                told = [r for r in rs if r == "eof"]
+                return (f"{where}: the TLS handshake failed ({hs}) but a connection handler was started ({n_started}x, with "
+                        f"{types})" + (f" and its reader is told a clean end-of-stream (results: {rs})" if told else
+                                       f" (reader results: {rs})"))
+            if hs == "ok":
+                return f"{where}: the stream ended inside the handshake but the handshake succeeded"
+            if fault != "cancel" and not hs.startswith("exc:"):
+                return f"{where}: the handshake failed but the failure was reported nowhere (no handshake error handler call, no log)"
+            if _field(sub, "inner-closed") != "1":
+                return f"{where}: handshake failed ({hs}) but the accepted transport was left open"
+            continue
+        if hs != "ok":
+            return f"{where}: the client's handshake flight was delivered completely but no handler was started with a TLS transport ({hs})"
+        if n_started != 1 or types != "AsyncTLSStreamTransport":
+            return f"{where}: the connection handler was started {n_started}x with {types} (expected once, with the TLS transport)"
+        why = _oracle_cut(sub_case, sub)
+        if why:
+            return "listener: " + why
+        if _field(sub, "inner-closed") != "1":
+            return f"{where}: the accepted transport is still open after the handler closed its stream"
     return None
 
 
@@ -738,6 +818,12 @@ def nontrivial(case: dict, real: list[str]) -> str | None:
         return "syncscript"
     if k == "client":
         return "client/" + case.get("which", "")
+    if k == "listen":
+        cl = sorted({_listen_class(case, i).split("/")[0] + ("/" + c["fault"] if c.get("fault") else "")
+                     for i, c in enumerate(case["conns"])})
+        key = f"listen/{'+'.join(cl)}/sc={int(bool(case.get('sc', True)))}/eh={case.get('eh', 'custom')}"
+        _stats["listen"][key] = _stats["listen"].get(key, 0) + 1
+        return key
     if k == "closerace":
         c = _race_class(case, real)
         key = f"closerace/{case.get('order', 'parked')}/{c}/sc={int(bool(case.get('sc', True)))}"
@@ -776,6 +862,21 @@ def shrink(case: dict):
             m = e9.baseline(case["role"], case["tls"], recs, bool(case.get("notify", True)))
             if len(recs) > 1 and case["cut"] <= m["rec_ends"][-2]:
                 yield {**case, "recs": recs[:-1]}
+    elif case["kind"] == "listen":
+        conns = list(case["conns"])
+        if len(conns) > 1:
+            for i in range(len(conns)):
+                yield {**case, "conns": [conns[i]]}
+        if case.get("eh", "custom") != "custom":
+            yield {**case, "eh": "custom"}
+        for i, c in enumerate(conns):
+            for k, v in (("frag", 0), ("max_frag", 4096), ("bufsize", 4096), ("method", "recv")):
+                if c.get(k, v) != v:
+                    yield {**case, "conns": conns[:i] + [{**c, k: v}] + conns[i + 1:]}
+            if c.get("recs") and c.get("cut") is not None and not c.get("fault"):
+                m = e9.baseline("server", case["tls"], list(c["recs"]), bool(c.get("notify", True)))
+                if c["cut"] < m["hs_end"]:
+                    yield {**case, "conns": conns[:i] + [{**c, "recs": []}] + conns[i + 1:]}
     elif case["kind"] == "closesend":
         for k, v in (("senders", 1), ("size", 1), ("delay", 0), ("frag", 0), ("recs", [])):
             if case.get(k, v) != v:
@@ -806,6 +907,10 @@ def known_key(case: dict, real: list[str], why: str) -> str:
                 + (",unread=1" if case.get("reads") is not None else ""))
     if k == "closesend":
         return f"kind=closesend,senders={case.get('senders', 1)},release={case.get('release', 'after')},sc={int(bool(case.get('sc', True)))}"
+    if k == "listen":
+        cl = sorted({_listen_class(case, i).split("/")[0] + ("/" + c["fault"] if c.get("fault") else "")
+                     for i, c in enumerate(case["conns"])})
+        return f"kind=listen,class={'+'.join(cl)},sc={int(bool(case.get('sc', True)))},started={int('handler was started' in why)}"
     if k == "script" and "handing" in why:
         return "kind=script,why=alert_not_handed_over"
     if k == "closerace":
@@ -1216,6 +1321,63 @@ def sendrace_cases(rng, tier: str) -> list[dict]:
     return out
 
 
+def _listen_conn(recs: list[int], cut, rng, **kw) -> dict:
+    c = {"recs": list(recs), "notify": True, "cut": cut, "method": rng.choice(("recv", "recv_into")),
+         "bufsize": rng.choices((1, 7, 64, 4096, 65536), weights=(1, 2, 3, 8, 4))[0], "frag": rng.randrange(1 << 30),
+         "max_frag": rng.choices((1, 5, 64, 4096), weights=(1, 2, 5, 12))[0], "after_close": rng.choice(("ebadf", "eof"))}
+    c.update(kw)
+    return c
+
+
+def listen_cases(rng, tier: str, boost: int) -> list[dict]:
+    """server side through the real AsyncTLSListener (vlib/c09_listen): EVERY offset of the client's handshake flights, the
+    structured offsets after the handshake, stalled / corrupted handshakes, a server shut down during the handshake,
+    several connections on one listener"""
+    out: list[dict] = []
+    thorough = tier != "quick"
+
+    def case(tls: str, conns: list[dict], sc=None, eh=None) -> dict:
+        return {"kind": "listen", "tls": tls, "sc": (rng.random() < 0.75) if sc is None else sc,
+                "eh": eh or rng.choices(("custom", "default", "raising"), weights=(3, 1, 1))[0], "conns": conns}
+
+    full = rng.choice(("1.3", "1.2"))     # quick: every offset for one version, a structured third of the other one's
+    for tls in ("1.3", "1.2"):
+        recs = rng.choice(([5, 17], [1, 40], [33], [2, 3, 4])) if not thorough else [5, 17]
+        m = e9.baseline("server", tls, recs, True)
+        hs_all = list(range(0, m["hs_end"]))
+        if not thorough and tls != full:
+            keep = {x for (_, a, b) in m["records"] for x in (a - 1, a, a + 1, a + 4, a + 5, a + 6, b - 1) if 0 <= x < m["hs_end"]}
+            hs_all = [x for x in hs_all if x in keep or x % 3 == rng.randrange(3)]
+        for cut in hs_all:
+            for sc in ((True, False) if thorough else (None,)):
+                out.append(case(tls, [_listen_conn(recs if rng.random() < 0.5 else [], cut, rng)], sc))
+        offs = [x for x in _offsets_structured(m, rng, 0) if x >= m["hs_end"]]
+        if not thorough:
+            rng.shuffle(offs)
+            offs = sorted(offs[:40] + [m["hs_end"], m["total"]])
+        for cut in offs + [None]:
+            for sc in (True, False):
+                out.append(case(tls, [_listen_conn(recs, cut, rng)], sc))
+        # the handshake fails in other ways: nothing more arrives (handshake timeout), a corrupted byte, server shut down
+        hs_offs = sorted(set([0, 1, 5, 6, m["hs_end"] - 1] + [a for (_, a, b) in m["records"] if a < m["hs_end"]]
+                             + rng.sample(range(m["hs_end"]), 12 if thorough else 5)))
+        for fault in ("stall", "garbage", "cancel"):
+            for k in hs_offs:
+                out.append(case(tls, [_listen_conn([5], k, rng, fault=fault)]))
+        # a peer that never sends close_notify
+        m2 = e9.baseline("server", tls, [4, 9], False)
+        for cut in (None, m2["total"], m2["total"] - 1, m2["rec_ends"][0]):
+            for sc in (True, False):
+                out.append(case(tls, [_listen_conn([4, 9], cut, rng, notify=False)], sc))
+        # several connections accepted by one listener: failed handshakes next to sessions that work
+        for _ in range(40 if thorough else 12):
+            conns = [_listen_conn(recs, rng.randrange(m["hs_end"]), rng), _listen_conn(recs, None, rng),
+                     _listen_conn(recs, rng.choice(offs), rng), _listen_conn([5], rng.randrange(m["hs_end"]), rng, fault="stall")]
+            rng.shuffle(conns)
+            out.append(case(tls, conns[:rng.choice((2, 3, 4))]))
+    return out
+
+
 def corpus() -> list[dict]:
     return []
 
@@ -1235,6 +1397,9 @@ def generate(rng, tier: str, boost: int):
     yield from small
     cuts = cut_cases(rng, tier, boost)
     rng.shuffle(cuts)
+    listens = listen_cases(rng, tier, boost)
+    prefetch(listens)
+    yield from listens
     races = race_cases(rng, tier, boost)
     rng.shuffle(races)
     prefetch(races)
@@ -1257,6 +1422,7 @@ def extra_coverage(stats) -> dict:
         "close_race_first_terminal_result": {k: sorted(v) for k, v in sorted(_stats["race_first"].items())},
         "close_with_unread_data_cases": dict(sorted(_stats["unread"].items())),
         "close_while_send_parked_cases (no model run: oracle only)": dict(sorted(_stats["sendrace"].items())),
+        "listener_cases (AsyncTLSListener, no model run: oracle only)": dict(sorted(_stats["listen"].items())),
         "aclose_flushes_on_ssl_error (generated table)": (tr9._last_info.get("aclose") or {}).get("flushes_on_ssl_error"),
         "exhaustive": "asynchronous transport: every byte offset of the listed sessions x both modes; scripted engines: every class "
                       "of the alphabet x pattern x mode x recv/recv_into",
